@@ -64,6 +64,9 @@ CONSTANTS
   ObjSpecs,      \* how the package is named in the call: "name" ("p", try_relative_path=False), "relpath" ("p" with
                  \* try_relative_path=True and the search directory as cwd), "abspath" (a pathlib.Path to the package directory),
                  \* "dotted" (the path of an object inside the package: "p.X")
+  Walks,         \* what enumerating the members of an imported module does (PEP 562: module-level __getattr__ + __dir__ expose
+                 \* one lazy attribute): "none" (no lazy attribute) | "ok" (resolves) | "dep" (its import needs a missing
+                 \* dependency: ModuleNotFoundError during the member walk) | "exit" (raises SystemExit during the walk)
   PathMuts,      \* what every executable module body does to sys.path before anything can fail:
                  \*   "none" | "inplace" (insert/append on the list it sees) | "rebind" (sys.path = [vendor, *sys.path])
   TopFaults, KidFaults, ExtFaults,   \* fault kinds tried on executable modules (always contain "none")
@@ -72,7 +75,7 @@ CONSTANTS
   ExtKinds,      \* py (q.py), sofile (compiled single-file module), missing
   Bugs           \* subset of {"none", "allowFirst", "noReraise", "noFinally", "stubsDynamic", "externalInspect",
                  \*            "pydInspected", "guardedRestore", "probeOnMiss", "gitDropsAllow",
-                 \*            "cachedFlag", "skipSwapOnPath"}
+                 \*            "cachedFlag", "skipSwapOnPath", "walkNoFinally"}
 
 VARIABLES
   cfg,          \* the case (constant during the behaviour)
@@ -235,7 +238,7 @@ InitCase ==
         kb \in (IF top \in NoDir THEN {"missing"} ELSE KidsB) :
      \E es \in (IF top \in {"py", "pyi"} THEN ExtStyles ELSE {None}) :
      \E ep \in (IF es = None THEN {FALSE} ELSE ExtPrivates), ek \in (IF es = None THEN {"missing"} ELSE ExtKinds) :
-     \E bg \in Bugs, pm \in PathMuts, sb \in Submods, os \in ObjSpecs, en \in Entries, op \in OnPaths :
+     \E bg \in Bugs, pm \in PathMuts, wk \in Walks, sb \in Submods, os \in ObjSpecs, en \in Entries, op \in OnPaths :
      \E fp \in FaultsFor(top, TopFaults), fa \in FaultsFor(ka, KidFaults), fb \in FaultsFor(kb, KidFaults),
         fq \in FaultsFor(IF es = None THEN "missing" ELSE ek, ExtFaults) :
        /\ (ka = "missing" /\ kb = "missing") => lay = "flat"          \* the layouts coincide
@@ -246,7 +249,7 @@ InitCase ==
                  findstubs |-> FindStubsOf(sm), stubs |-> StubsOf(sm), layout |-> lay,
                  file |-> [p |-> top, a |-> ka, b |-> kb],
                  extstyle |-> es, extprivate |-> ep, extkind |-> ek,
-                 fault |-> [p |-> fp, a |-> fa, b |-> fb, q |-> fq], pathmut |-> pm, submodules |-> sb, objspec |-> os, entry |-> en, onpath |-> op, bug |-> bg]
+                 fault |-> [p |-> fp, a |-> fa, b |-> fb, q |-> fq], pathmut |-> pm, walk |-> wk, submodules |-> sb, objspec |-> os, entry |-> en, onpath |-> op, bug |-> bg]
 InitRun ==
   /\ pc = (IF cfg.entry = "load_git" THEN "Checkout" ELSE "Construct") /\ wt = None /\ lstack = <<>> /\ cur = None /\ role = None /\ dyn = NoDyn /\ exc = None
   /\ sysPath = "orig" /\ savedPath = <<>> /\ dirty = {} /\ sysModules = {} /\ executed = {}
@@ -461,8 +464,22 @@ InspectTop ==          \* load(): the dynamically imported top-level module has 
   /\ Ev([ev |-> "InspectTop", m |-> Pkg])
   /\ UNCHANGED <<cfg, wt, lstack, exc, pathvars, impvars, treevars, outcome>>
 
+\* Inspector.inspect walks the members of the imported module object (inspect.getmembers): a lazy attribute whose
+\* resolution fails raises out of the walk, after the import itself succeeded and sys_path was left
+WalkFails(m) == cfg.walk \in {"dep", "exit"} /\ PyKind(PyTarget(m)) = "exec"
+
+WalkFail ==
+  /\ pc = "Inspected" /\ WalkFails(cur)
+  /\ Ev([ev |-> "InspectFail", m |-> cur])
+  \* ModuleNotFoundError is an ImportError; _inspect_module maps SystemExit to ImportError
+  /\ exc' = IF cfg.walk = "dep" THEN "ModuleNotFoundError" ELSE "ImportError"
+  /\ pc' = IF role = "dyntop" THEN "LoadRaise" ELSE "WrapError"
+  \* seeded defect walkNoFinally: the walk runs with sys.path rebound by hand and the restore line is skipped by the exception
+  /\ sysPath' = IF Bug = "walkNoFinally" THEN "search" ELSE sysPath
+  /\ UNCHANGED <<cfg, wt, lstack, cur, role, dyn, savedPath, dirty, impvars, treevars, outcome>>
+
 Inspected ==
-  /\ pc = "Inspected"
+  /\ pc = "Inspected" /\ ~WalkFails(cur)
   /\ LET n == Built(cur, role, agent) IN
      /\ pc' = n.pc /\ loaded' = n.loaded /\ todo' = n.todo /\ members' = n.members
   /\ Ev([ev |-> "Inspected", m |-> cur])
@@ -558,7 +575,7 @@ Step ==
   \/ Submodule \/ CreateNsParent \/ SkipSubmodule
   \/ DynImport \/ EnterSysPath \/ TryImport \/ Import \/ ImportOk \/ ImportFail \/ ExitSysPath
   \/ DynImportOk \/ DynImportFail \/ InspectTop \/ Inspected \/ InspectFail \/ WrapError \/ StubPass
-  \/ LoadReturn \/ LoadMissing \/ LoadRaise \/ Return \/ Raise \/ Checkout \/ Cleanup \/ SetOptions
+  \/ LoadReturn \/ LoadMissing \/ LoadRaise \/ Return \/ Raise \/ Checkout \/ Cleanup \/ SetOptions \/ WalkFail
 Next == Step \/ Finished
 Spec == Init /\ [][Next]_vars
 
@@ -591,7 +608,8 @@ ExecOnlyUnderSwap == [][executed' # executed => (sysPath # "orig" /\ savedPath #
 OutcomeLegal ==
   /\ outcome \in {None, "Return", "ModuleNotFoundError", "ImportError", "LoadingError", "FileNotFoundError", "KeyError"}
   /\ (outcome = "KeyError") => cfg.objspec = "dotted"              \* the object path names nothing in the loaded package
-  /\ (outcome = "ModuleNotFoundError") => MissStatic          \* re-raised iff inspection is disallowed
+  /\ (outcome = "ModuleNotFoundError") => (MissStatic \/ cfg.walk = "dep")      \* ... or a lazy member of a dynamically found top-level module
+  \*         \* re-raised iff inspection is disallowed
   /\ (outcome = "FileNotFoundError") => (cfg.objspec = "abspath" /\ executed = {})    \* documented for Path arguments
   /\ (Static /\ pc = "Done" /\ FindRes("p").res = "notfound") => outcome \in {"ModuleNotFoundError", "FileNotFoundError"}
 TypeOK ==
@@ -612,6 +630,7 @@ CatchProbeOnMiss == Bug = "probeOnMiss" => NoExecutionWhenStatic
 CatchGitDropsAllow == Bug = "gitDropsAllow" => (NoExecutionWhenStatic /\ CompiledSkippedWhenStatic)
 CatchCachedFlag == Bug = "cachedFlag" => NoExecutionWhenStatic
 CatchSkipSwapOnPath == Bug = "skipSwapOnPath" => PathRestoredAtEnd
+CatchWalkNoFinally == Bug = "walkNoFinally" => PathRestoredAtEnd
 WorktreeRemoved == pc = "Done" => wt # "present"
 
 \* every terminal state is printed: one implementation test per case (gverif/props/c15.py replays it)
